@@ -225,6 +225,11 @@ type intable interface {
 // If no normalization is required, the input value will be returned
 // unmodified from its original value.
 func (e *Expression) normalizeAdd(valueMessage protoreflect.Message, value fhir.Base) (fhir.Base, error) {
+	// A value that already has the element's type is patched in as it is:
+	// rebuilding it from its bare value would drop its id and extensions.
+	if valueMessage.Descriptor() == value.ProtoReflect().Descriptor() {
+		return value, nil
+	}
 	var newVal fhir.Base
 	var err error
 	switch value := value.(type) {
